@@ -56,6 +56,7 @@ def main():
 
     n = 0
     shrunk = 0
+    seeds_done = []
     for seed in seeds():
         if n >= a.max_runs or (a.deadline and time.time() > a.deadline):
             break
@@ -78,6 +79,9 @@ def main():
             "faults_fired": res.get("faults_fired", {}),
             "distinct": res.get("distinct", []),
         }
+        if res.get("violations"):
+            line["prelude"] = list(seeds_done)
+        seeds_done.append(seed)
         if res.get("sample") is not None:
             line["sample"] = res["sample"]
         elif n < 2:
